@@ -199,18 +199,18 @@ def match_originals(out, path, exp_flags):
     """positions of the original points inside `out` (order preserving), or None."""
     if exp_flags is not None and len(exp_flags) == len(out):
         pos = [i for i, f in enumerate(exp_flags) if f]
-        if len(pos) == len(path) and all(tuple(out[i][:2]) == tuple(path[j][:2]) for j, i in enumerate(pos)):
+        if len(pos) == len(path) and all(tuple(out[i]) == tuple(path[j]) for j, i in enumerate(pos)):
             return pos
     pos, i = [], 0
     for j, p in enumerate(path):
         last = (j == len(path) - 1)
         if last:
             # the final original must be the final element
-            if tuple(out[-1][:2]) != tuple(p[:2]) or len(out) - 1 < i:
+            if tuple(out[-1]) != tuple(p) or len(out) - 1 < i:
                 return None
             pos.append(len(out) - 1)
             break
-        while i < len(out) and tuple(out[i][:2]) != tuple(p[:2]):
+        while i < len(out) and tuple(out[i]) != tuple(p):      # the original as given (incl. a time component)
             i += 1
         if i >= len(out):
             return None
